@@ -452,6 +452,9 @@ def r11_4(ctx, prog, crate):
                                 if any(x.kind == "call" and x.a == "time::timer::Timer::kind" for x in isrc):
                                     by_kind = True
                         work.append({"k": "copy", "p": {"l": pl["l"], "proj": []}})
+                if not by_kind:
+                    from .common import slot_selected_by_match
+                    by_kind = slot_selected_by_match(b, c.args[0], "time::timer::Timer::kind")
                 ctx.check(by_kind, "R11.4", [b.path.rsplit("::", 1)[-1], "cache-slot-per-timer-kind"],
                           "`%s` caches its measurement in a static that is not selected by self.kind(): the value measured for one timer is "
                           "reported for the other" % b.path, c.line())
